@@ -23,6 +23,7 @@ func ruleC15(prog *Program, rep *Report) {
 	// a reused (pooled) writer that keeps the previous call's stream writes part of the text elsewhere:
 	// sen.String and oj.JSON then disagree with the other encoders
 	ruleEntryParity(prog, rep, "oj.Writer", "sen.Writer")
+	ruleUnguardedElem(prog, rep, "oj", "sen", "alt", "pretty")
 }
 
 // fieldLoops finds `for` loops whose init or condition calls NumField().
